@@ -76,6 +76,14 @@ MUTATIONS = {
         [("flox/aggregate_flox.py", "result = func(group_idx, np.where(isnull(array), fillna, array), *args, **kwargs)",
           "array[isnull(array)] = fillna; result = func(group_idx, array, *args, **kwargs)")],
     ),
+    "issorted_on_dask_labels": (
+        ["C12"],
+        [("flox/core.py", "    if not_arg_reduce and (not is_duck_dask_array(by) and _issorted(by)):", "    if not_arg_reduce and _issorted(by):")],
+    ),
+    "cohorts_planner_on_dask_values": (
+        ["C12"],
+        [("flox/core.py", "    if nax == 1 and by_.ndim > 1 and expected_ is None:", "    if is_duck_dask_array(array) and array.size < 8 and bool(array.sum() == 0) or (nax == 1 and by_.ndim > 1 and expected_ is None):")],
+    ),
     "nanmin_combine_min": (
         ["C04"],
         [("flox/aggregations.py", '    chunk="nanmin",\n    combine="nanmin",', '    chunk="nanmin",\n    combine="min",')],
@@ -90,7 +98,7 @@ MUTATIONS = {
     ),
     "var_finalize_no_div": (
         ["C04", "C02"],
-        [("flox/aggregations.py", "result = (sumsq - (sum_**2 / count)) / (count - ddof)", "result = (sumsq - (sum_**2 / count)) / np.maximum(count - ddof, 1)")],
+        [("flox/aggregations.py", "result = (sumsq - (sum_**2 / count)) / (count - ddof)", "result = (sumsq - (sum_**2 / np.maximum(count, 2))) / (count - ddof)")],
     ),
 }
 
